@@ -3,6 +3,8 @@ package blowfishref
 import (
 	"bytes"
 	"encoding/hex"
+	"encoding/json"
+	"os"
 	"testing"
 )
 
@@ -76,6 +78,43 @@ func TestVariableKeyLength(t *testing.T) {
 		ct := New(key[:n]).Encrypt(pt)
 		if !bytes.Equal(ct, unhex(setKey[n-1])) {
 			t.Errorf("keylen %d: got %X want %s", n, ct, setKey[n-1])
+		}
+	}
+}
+
+// Cross-check against an unrelated implementation: vectors produced by OpenSSL's
+// BF_set_key/BF_ecb_encrypt for every key length 1..72 (see testdata/openssl.json).
+func TestOpenSSLVectors(t *testing.T) {
+	raw, err := os.ReadFile("testdata/openssl.json")
+	if err != nil {
+		t.Fatal(err)
+	}
+	var f struct{ Vectors [][3]string }
+	if err := json.Unmarshal(raw, &f); err != nil {
+		t.Fatal(err)
+	}
+	if len(f.Vectors) < 100 {
+		t.Fatal("too few vectors")
+	}
+	for _, v := range f.Vectors {
+		s := New(unhex(v[0]))
+		if ct := s.Encrypt(unhex(v[1])); !bytes.Equal(ct, unhex(v[2])) {
+			t.Errorf("keylen %d: got %x want %s", len(v[0])/2, ct, v[2])
+		}
+		if pt := s.Decrypt(unhex(v[2])); !bytes.Equal(pt, unhex(v[1])) {
+			t.Errorf("keylen %d: decrypt got %x", len(v[0])/2, pt)
+		}
+	}
+}
+
+// An all-zero salt of any length is the plain key schedule.
+func TestZeroSaltIsPlain(t *testing.T) {
+	key := []byte("some key")
+	a := New(key)
+	for _, n := range []int{1, 3, 16, 17} {
+		b := NewSalted(key, make([]byte, n))
+		if *a != *b {
+			t.Errorf("zero salt of %d bytes differs from unsalted schedule", n)
 		}
 	}
 }
